@@ -27,6 +27,12 @@ type c09Handler struct {
 	got  []string
 	keys map[string]int
 	sig  chan struct{}
+
+	// onFire, when set, is called (once) from inside the expiry callback of
+	// the given account: the schedule-controlled "re-registration arrives
+	// while the account's own expiry is being handled" scenario.
+	onFire    func()
+	onFireKey int
 }
 
 func (h *c09Handler) HandleAccountConf(*btcec.PublicKey,
@@ -41,7 +47,16 @@ func (h *c09Handler) HandleAccountExpiry(k *btcec.PublicKey, height uint32) erro
 	h.mu.Lock()
 	id := h.keys[string(k.SerializeCompressed())]
 	h.got = append(h.got, fmt.Sprintf("%d:%d", id, height))
+	hook := h.onFire
+	if hook != nil && id == h.onFireKey {
+		h.onFire = nil
+	} else {
+		hook = nil
+	}
 	h.mu.Unlock()
+	if hook != nil {
+		hook()
+	}
 	select {
 	case h.sig <- struct{}{}:
 	default:
@@ -115,42 +130,20 @@ func runC09(r *Run) {
 			rereg     bool
 			bad       string
 		)
-		for i, op := range opsIn {
-			var k int
-			var h, b uint32
-			isAdd := strings.HasPrefix(op, "add ")
-			if isAdd {
-				fmt.Sscanf(op, "add %d %d", &k, &h)
-				if k < 1 || k > nKeys {
-					continue
-				}
-				r.Count("op/add")
-				if _, ok := ghost[k]; ok {
-					rereg = true
-				}
-				w.Add(keys[k], h)
-				if h <= best {
-					// a hand-off goroutine should have been
-					// spawned: wait for it (bounded).
-					r.Count("add/already-expired")
-					select {
-					case <-hd.sig:
-					case <-time.After(2 * time.Second):
-					}
-				}
-			} else {
-				fmt.Sscanf(op, "block %d", &b)
-				r.Count("op/block")
-				w.Block(b)
-				best = b
-			}
+		// collect gathers the hand-offs since the last call.
+		collect := func() []string {
 			runtime.Gosched()
 			got := hd.drain()
 			sort.Strings(got)
-			// drain stale signals
 			for len(hd.sig) > 0 {
 				<-hd.sig
 			}
+			return got
+		}
+		// account records one op with its observed hand-offs: emits the
+		// line for the model and advances the independent ghost oracle.
+		step := 0
+		account := func(op string, isAdd bool, k int, h uint32, got []string) {
 			outStr := "-"
 			if len(got) > 0 {
 				outStr = strings.Join(got, ",")
@@ -158,7 +151,6 @@ func runC09(r *Run) {
 			hist = append(hist, op+" => "+outStr)
 			r.Emit("C09 "+op, outStr)
 
-			// ---- independent oracle (ghost per account) ----
 			cnt := map[int]int{}
 			for _, g := range got {
 				var gk int
@@ -170,6 +162,9 @@ func runC09(r *Run) {
 				}
 			}
 			if isAdd {
+				if _, ok := ghost[k]; ok {
+					rereg = true
+				}
 				ghost[k] = &c09Ghost{h: h, wasDue: h <= best, count: cnt[k]}
 			}
 			for gk, g := range ghost {
@@ -184,13 +179,90 @@ func runC09(r *Run) {
 				if g.count != want && bad == "" {
 					bad = fmt.Sprintf("account %d registered at height %d: "+
 						"%d notifications since registration, expected %d "+
-						"(best=%d) after op #%d", gk, g.h, g.count, want, best, i)
+						"(best=%d) after op #%d", gk, g.h, g.count, want, best, step)
 				}
 			}
 			for gk := range cnt {
 				if _, ok := ghost[gk]; !ok && bad == "" {
 					bad = fmt.Sprintf("account %d notified but never registered", gk)
 				}
+			}
+			step++
+		}
+		waitHandOff := func() {
+			select {
+			case <-hd.sig:
+			case <-time.After(2 * time.Second):
+			}
+		}
+
+		for _, op := range opsIn {
+			var k int
+			var h, b uint32
+			switch {
+			case strings.HasPrefix(op, "add "):
+				fmt.Sscanf(op, "add %d %d", &k, &h)
+				if k < 1 || k > nKeys {
+					continue
+				}
+				r.Count("op/add")
+				w.Add(keys[k], h)
+				if h <= best {
+					// a hand-off goroutine should have been
+					// spawned: wait for it (bounded).
+					r.Count("add/already-expired")
+					waitHandOff()
+				}
+				account(op, true, k, h, collect())
+
+			case strings.Contains(op, " & add "):
+				// "block b & add k h" (h > b): the add is issued by
+				// another goroutine from INSIDE k's expiry callback
+				// (if it fires), i.e. while NewBlock is still
+				// running. Both entry points are atomic, so the only
+				// legal outcome is that of "block b" followed by
+				// "add k h".
+				fmt.Sscanf(op, "block %d & add %d %d", &b, &k, &h)
+				if k < 1 || k > nKeys || h <= b {
+					continue
+				}
+				r.Count("op/block+concurrent-add")
+				done := make(chan struct{})
+				fired := false
+				hd.mu.Lock()
+				hd.onFireKey = k
+				hd.onFire = func() {
+					fired = true
+					go func() {
+						w.Add(keys[k], h)
+						close(done)
+					}()
+					// give the re-registration time to run if
+					// the mutex does not hold it back
+					time.Sleep(500 * time.Microsecond)
+				}
+				hd.mu.Unlock()
+				w.Block(b)
+				best = b
+				hd.mu.Lock()
+				hd.onFire = nil
+				hd.mu.Unlock()
+				if fired {
+					r.Count("concurrent-add/inside-callback")
+					<-done
+				} else {
+					w.Add(keys[k], h)
+				}
+				got := collect()
+				account(fmt.Sprintf("block %d", b), false, 0, 0, got)
+				account(fmt.Sprintf("add %d %d", k, h), true, k, h, nil)
+
+			default:
+				fmt.Sscanf(op, "block %d", &b)
+				r.Count("op/block")
+				w.Block(b)
+				best = b
+				account(op, false, 0, 0, collect())
 			}
 		}
 		r.Evaluations++
@@ -200,7 +272,9 @@ func runC09(r *Run) {
 		r.Sample(hist)
 		if bad != "" {
 			r.Count("oracle/violation")
-			r.Violate(bad, "C09/history", hist)
+			r.Violate(bad, "C09/history", map[string]interface{}{
+				"ops": opsIn, "observed": hist, "via_controller": viaCtrl,
+			})
 		}
 	}
 
@@ -208,7 +282,13 @@ func runC09(r *Run) {
 	for _, raw := range r.FixedCases() {
 		var c []string
 		if json.Unmarshal(raw, &c) != nil {
-			continue
+			var o struct {
+				Ops []string `json:"ops"`
+			}
+			if json.Unmarshal(raw, &o) != nil {
+				continue
+			}
+			c = o.Ops
 		}
 		for i := range c {
 			if j := strings.Index(c[i], " => "); j >= 0 {
@@ -260,7 +340,13 @@ func runC09(r *Run) {
 					}
 					r.Count("block/lower")
 				}
-				ops = append(ops, fmt.Sprintf("block %d", next))
+				if r.Rng.Intn(6) == 0 {
+					// re-registration racing with the block
+					ops = append(ops, fmt.Sprintf("block %d & add %d %d", next,
+						1+r.Rng.Intn(nKeys), next+1+uint32(r.Rng.Intn(5))))
+				} else {
+					ops = append(ops, fmt.Sprintf("block %d", next))
+				}
 				best = next
 			}
 		}
